@@ -117,6 +117,9 @@ def guard_reads_vs_leg_writes(R, rep):
 def frontends(R, rep):
     F = R.F
     n = 0
+    from flow import effect_helpers
+    is_out = lambda cal: cal in OUTPUTS or cal.startswith("serde_json::ser::to_string")
+    out_helpers = effect_helpers(F, lambda cal: cal in OUTPUTS, ("cgt_tool", "cgt_mcp", "cgt_wasm"), P.user_written)
     for b in F.bodies.values():
         if b.crate not in ("cgt_tool", "cgt_mcp", "cgt_wasm") or not P.user_written(F, b):
             continue
@@ -126,7 +129,7 @@ def frontends(R, rep):
             continue  # a wrapper returning the report: its callers are examined
         for i, t in calc:
             n += 1
-            outs = [(j, u) for j, u in b.calls() if u["callee"] in OUTPUTS or u["callee"].startswith("serde_json::ser::to_string")]
+            outs = [(j, u) for j, u in b.calls() if is_out(u["callee"]) or (u["callee"] in out_helpers and u["callee"] != b.id)]
             # error edge: the Break arm of the `?` on this call's result
             err_blocks = set()
             for s in b.reach_from(t["target"]) if t.get("target") is not None else ():
@@ -169,7 +172,11 @@ def error_texts(R, rep):
     c = R.require("cascade")
     tb = R.terms(c, 0)
     n = 0
-    for fc in format_calls(F, c, tb):
+    rg = R.region(c, depth=1)
+    fcs = []
+    for hb in rg.bodies.values():
+        fcs += list(format_calls(F, hb, R.terms(hb, 0)))
+    for fc in fcs:
         if not fc["parts"]:
             continue
         # only formats feeding an error
